@@ -1,5 +1,5 @@
 """C05 — formatter contract (structural clauses; the round trip parse(format(x)) == x is not decided)."""
-from ..rules import text, data, fields, eqord
+from ..rules import text, data, fields, eqord, parser
 
 EXPL = ("Decides: store_into_bytes refuses exactly when buffer.len() < len_in_str() and no store to the buffer lies on that path; it "
         "returns Ok(len_in_str()); to_string allocates exactly len_in_str() bytes and fills them with that one formatter, Display "
@@ -7,12 +7,15 @@ EXPL = ("Decides: store_into_bytes refuses exactly when buffer.len() < len_in_st
         "text of the advertised length; len_in_str() = BLOCK_SIZES_STR[log].len()+len1+len2+2 and the writer copies the same table "
         "entry; MAX_LEN_IN_STR = 10+64+64+2; every byte stored into the buffer is b':', BASE64_TABLE_U8[..] or a BLOCK_SIZES_STR entry "
         "(all ASCII, SA-DATA), hence from_utf8().unwrap() cannot fire and from_utf8_unchecked (unsafe feature) is sound; alphabet and "
-        "reverse table are exact inverses; the block hash text is written from (blockhashK, len_blockhashK) with like indices. NOT "
+        "reverse table are exact inverses; on the parse side of the round trip the stored symbol is the reverse-table value under "
+        "the not-INVALID guard, the two parse calls fill (blockhashK, len_blockhashK) with capacity SK, and the strict parser's "
+        "look-ahead reads the byte at the consumed-input position exactly when its bounded iterator ran dry; the block hash text is written from (blockhashK, len_blockhashK) with like indices. NOT "
         "decided: parse(format(x)) == x as a value statement.")
 
 
 def run(ctx):
-    cfgs = ["rel"] if ctx.tier == "quick" else ["rel", "dbg", "unsafe", "nodef", "alloc"]
+    cfgs = ["rel", "strict"] if ctx.tier == "quick" else ["rel", "strict", "dbg", "unsafe", "nodef", "alloc"]
+    ctx.progs(cfgs)  # build all configurations in parallel
     for c in cfgs:
         prog = ctx.prog(c)
         ctx.guard("C05", "guard", lambda: text.store_guard(ctx, prog))
@@ -22,5 +25,9 @@ def run(ctx):
         ctx.guard("C05", "tables", lambda: data.base64_tables(ctx, prog))
         ctx.guard("C05", "sizes", lambda: data.block_size_tables(ctx, prog))
         ctx.guard("C05", "consts", lambda: data.len_constants(ctx, prog))
+        # parse side of the round trip (structural clauses shared with C04)
+        ctx.guard("C05", "parse-store", lambda: parser.symbol_store(ctx, prog))
+        ctx.guard("C05", "parse-phase", lambda: parser.error_origin_by_phase(ctx, prog))
+        ctx.guard("C05", "parse-look", lambda: parser.strict_lookahead(ctx, prog))
         ctx.guard("C05", "sym", lambda: eqord.len_index_symmetry(ctx, prog, scope=r"(store_into_bytes|insert_block_hash_into_bytes|len_in_str|::to_string|core::fmt::Display)", floor=2))
     return ctx.finish(EXPL, ["core::str::from_utf8 accepts all-ASCII input", "alloc::vec::from_elem(0, n) yields n bytes"])
